@@ -190,6 +190,31 @@ def run_importer(args, gffutils, log, state, tmpdir):
     if not args.get("barrier"):
         time.sleep(args.get("offset_ms", 0) / 1000.0)
 
+    for job in args.get("pre_jobs", []):
+        # earlier jobs of this worker process (a pool worker runs a list of jobs): whatever they did stays their own
+        try:
+            if job == "gtf with custom keys":
+                gffutils.create_db('chr1\ts\texon\t1\t9\t.\t+\t.\tgid "pg1"; tid "pt1";\nchr1\ts\texon\t20\t29\t.\t+\t.\tgid "pg1"; tid "pt1";\n',
+                                   ":memory:", from_string=True, gtf_gene_key="gid", gtf_transcript_key="tid").conn.close()
+            elif job == "file with directives":
+                gffutils.create_db("##gff-version 3\n##sequence-region chrP 1 1000\n##earlier-job directive\nchrP\ts\tgene\t1\t9\t.\t+\t.\tID=pj1\n",
+                                   ":memory:", from_string=True).conn.close()
+            elif job == "failed import":
+                try:
+                    gffutils.create_db("chr1\ts\tgene\t1\t9\t.\t+\t.\tID=d\nchr1\ts\tgene\t1\t9\t.\t+\t.\tID=d\n", ":memory:", from_string=True)
+                except Exception:
+                    pass
+            elif job == "pragmas and switches":
+                from gffutils import constants
+                constants.always_return_list = False
+                constants.ignore_url_escape_characters = True
+                try:
+                    [str(f) for f in gffutils.DataIterator("chr1\ts\tgene\t1\t9\t.\t+\t.\tID=a%3Bb;Note=x\n", from_string=True)]
+                finally:
+                    constants.always_return_list = True
+                    constants.ignore_url_escape_characters = False
+        except Exception:
+            pass
     if args.get("start_after_arrivals"):
         deadline = time.time() + 30
         while time.time() < deadline and len(glob.glob(os.path.join(args["barrier_dir"], "*.arrived"))) < args["start_after_arrivals"]:
@@ -202,7 +227,11 @@ def run_importer(args, gffutils, log, state, tmpdir):
     if args.get("no_inference"):
         kw.update({"disable_infer_genes": True, "disable_infer_transcripts": True})
     try:
-        if args.get("shared_iterator"):
+        if args.get("from_db"):
+            src = gffutils.FeatureDB(args["from_db"])
+            db = gffutils.create_db(src, args["out_db"], **kw)
+            src.conn.close()
+        elif args.get("shared_iterator"):
             db = gffutils.create_db(state["shared_it"], args["out_db"], **kw)
         elif args.get("from_string"):
             data = open(args["input"], encoding="utf-8").read()
